@@ -204,9 +204,80 @@ class Flattener:
         inv = {v: k for k, v in rename.items()}
         return _Renamer(inv).visit(copy.deepcopy(call))
 
+    # ------------------------------------------------------------------ comprehensions holding an inlinable call
+    def _has_inlinable_call(self, e: ast.AST, ctx: FuncInfo, stack, rename) -> bool:
+        for n in ast.walk(e):
+            if isinstance(n, ast.Call):
+                probe = self._resolve_ctx_call(ctx, n, rename)
+                try:
+                    if self._target(ctx, probe, stack) is not None:
+                        return True
+                except Exception:
+                    continue
+        return False
+
+    def _expand_comprehension(self, comp: ast.AST, into: str, s: ast.stmt, adder: Optional[str] = None) -> Optional[List[ast.stmt]]:
+        """statements that fill the container named `into` like the comprehension does (comprehension variables get fresh names)"""
+        n = next(_counter)
+        names = set()
+        for gen in comp.generators:
+            names |= {x.id for x in ast.walk(gen.target) if isinstance(x, ast.Name)}
+        ren = _Renamer({x: f"{x}__c{n}" for x in names})
+        comp = copy.deepcopy(comp)
+        first_iter = comp.generators[0].iter
+        for gen in comp.generators:
+            gen.target = ren.visit(gen.target)
+            gen.ifs = [ren.visit(c) for c in gen.ifs]
+            if gen.iter is not first_iter:
+                gen.iter = ren.visit(gen.iter)
+        tgt = lambda: ast.Name(id=into, ctx=ast.Load())
+        if isinstance(comp, ast.DictComp):
+            leaf: ast.stmt = ast.Assign(targets=[ast.Subscript(value=tgt(), slice=ren.visit(comp.key), ctx=ast.Store())], value=ren.visit(comp.value), lineno=s.lineno)
+        else:
+            meth = adder or ("add" if isinstance(comp, ast.SetComp) else "append")
+            leaf = ast.Expr(value=ast.Call(func=ast.Attribute(value=tgt(), attr=meth, ctx=ast.Load()), args=[ren.visit(comp.elt)], keywords=[]))
+        body: List[ast.stmt] = [leaf]
+        for gen in reversed(comp.generators):
+            if gen.is_async:
+                return None
+            for c in reversed(gen.ifs):
+                body = [ast.If(test=c, body=body, orelse=[])]
+            body = [ast.For(target=gen.target, iter=gen.iter, body=body, orelse=[], lineno=s.lineno)]
+        for b in body:
+            ast.copy_location(b, comp)
+            for sub in ast.walk(b):
+                if not hasattr(sub, "lineno") and isinstance(sub, (ast.stmt, ast.expr)):
+                    ast.copy_location(sub, comp)
+        return body
+
     def _flatten_stmt(self, s: ast.stmt, ctx: FuncInfo, stack, depth, rename) -> List[ast.stmt]:
         if depth > self.depth:
             return [s]
+        COMPS = (ast.ListComp, ast.SetComp, ast.DictComp)
+        val = getattr(s, "value", None)
+        if isinstance(s, (ast.Assign, ast.AnnAssign, ast.Return)) and isinstance(val, COMPS) and self._has_inlinable_call(val, ctx, stack, rename):
+            single = isinstance(s, ast.Assign) and len(s.targets) == 1 and isinstance(s.targets[0], ast.Name)
+            n = next(_counter)
+            tmp = f"__comp__c{n}"
+            init_val: ast.expr = ast.Dict(keys=[], values=[]) if isinstance(val, ast.DictComp) else \
+                (ast.Call(func=ast.Name(id="set", ctx=ast.Load()), args=[], keywords=[]) if isinstance(val, ast.SetComp) else ast.List(elts=[], ctx=ast.Load()))
+            body = self._expand_comprehension(val, tmp, s)
+            if body is not None:
+                init = ast.copy_location(ast.Assign(targets=[ast.Name(id=tmp, ctx=ast.Store())], value=init_val, lineno=s.lineno), s)
+                s.value = ast.copy_location(ast.Name(id=tmp, ctx=ast.Load()), val)
+                new = [init] + body + [s]
+                for x in new:
+                    ast.fix_missing_locations(x)
+                return self._flatten_block(new, ctx, stack, depth, rename)
+        if isinstance(s, ast.Expr) and isinstance(s.value, ast.Call) and isinstance(s.value.func, ast.Attribute) and s.value.func.attr in ("update", "extend") \
+                and len(s.value.args) == 1 and isinstance(s.value.args[0], (ast.ListComp, ast.SetComp, ast.GeneratorExp)) and isinstance(s.value.func.value, ast.Name) \
+                and self._has_inlinable_call(s.value.args[0], ctx, stack, rename):
+            comp = s.value.args[0]
+            body = self._expand_comprehension(comp, s.value.func.value.id, s, adder="add" if s.value.func.attr == "update" else "append")
+            if body is not None:
+                for x in body:
+                    ast.fix_missing_locations(x)
+                return self._flatten_block(body, ctx, stack, depth, rename)
         # recurse into compound statements first
         for fld in ("body", "orelse", "finalbody"):
             sub = getattr(s, fld, None)
@@ -229,6 +300,8 @@ class Flattener:
                 continue
             new_e = self._inline_in_expr(e, ctx, stack, depth, rename, pre)
             setattr(s, fld, new_e)
+        if isinstance(s, ast.Assign):
+            s.targets = [self._inline_in_expr(t, ctx, stack, depth, rename, pre) if isinstance(t, (ast.Subscript, ast.Attribute)) else t for t in s.targets]
         if isinstance(s, ast.Expr) and isinstance(s.value, (ast.Constant, ast.Name)) and pre:
             return pre
         return pre + [s]
@@ -260,12 +333,90 @@ class Flattener:
     def run(self) -> FuncInfo:
         fn = copy.deepcopy(self.f.node)
         fn.body = self._flatten_block(list(fn.body), self.f, (self.f.qn,), 1)
+        if self.inlined:
+            specialise(fn)
         ast.fix_missing_locations(fn)
         flat = FuncInfo(self.f.mod, self.f.cls, fn, static=self.f.static)
         flat.qn = self.f.qn            # findings are reported against the public function
         flat.flat_of = self.f
         flat.inlined = list(dict.fromkeys(self.inlined))
         return flat
+
+
+def specialise(fn: ast.FunctionDef) -> None:
+    """partial evaluation after inlining: a helper parameter bound to a constant at this call site (`p__i3 = None`) decides the
+    helper's tests on it (`if p__i3 is None:`); the branch not taken is removed.  Only names created by the inliner (single
+    definition, constant value) take part."""
+    from .cfg import eval3
+    for _ in range(4):
+        stores: Dict[str, List[ast.AST]] = {}
+        for n in ast.walk(fn):
+            if isinstance(n, ast.Name) and isinstance(n.ctx, ast.Store):
+                stores.setdefault(n.id, []).append(n)
+        consts: Dict[str, object] = {}
+        for n in ast.walk(fn):
+            tgt = val = None
+            if isinstance(n, ast.Assign) and len(n.targets) == 1 and isinstance(n.targets[0], ast.Name):
+                tgt, val = n.targets[0].id, n.value
+            elif isinstance(n, ast.AnnAssign) and isinstance(n.target, ast.Name) and n.value is not None:
+                tgt, val = n.target.id, n.value
+            if tgt and "__i" in tgt and len(stores.get(tgt, [])) == 1 and isinstance(val, ast.Constant):
+                consts[tgt] = val.value
+        if not consts:
+            return
+
+        def val(e):
+            if isinstance(e, ast.Name) and e.id in consts:
+                return bool(consts[e.id])
+            if isinstance(e, ast.Compare) and len(e.ops) == 1 and isinstance(e.left, ast.Name) and e.left.id in consts \
+                    and isinstance(e.comparators[0], ast.Constant):
+                a, b = consts[e.left.id], e.comparators[0].value
+                op = e.ops[0]
+                if isinstance(op, ast.Is):
+                    return a is b if (a is None or b is None or isinstance(a, bool) or isinstance(b, bool)) else None
+                if isinstance(op, ast.IsNot):
+                    return a is not b if (a is None or b is None or isinstance(a, bool) or isinstance(b, bool)) else None
+                if isinstance(op, ast.Eq):
+                    return a == b
+                if isinstance(op, ast.NotEq):
+                    return a != b
+            return None
+
+        changed = [False]
+
+        class Prune(ast.NodeTransformer):
+            def visit_If(self, n):
+                self.generic_visit(n)
+                if getattr(n, "_inline_block", False):
+                    return n
+                v = eval3(n.test, val)
+                if v is True:
+                    changed[0] = True
+                    return n.body
+                if v is False:
+                    changed[0] = True
+                    return n.orelse or None
+                return n
+
+            def visit_IfExp(self, n):
+                self.generic_visit(n)
+                v = eval3(n.test, val)
+                if v is True:
+                    changed[0] = True
+                    return n.body
+                if v is False:
+                    changed[0] = True
+                    return n.orelse
+                return n
+
+        Prune().visit(fn)
+        for n in ast.walk(fn):
+            for fld in ("body", "orelse"):
+                b = getattr(n, fld, None)
+                if isinstance(b, list) and fld == "body" and not b and isinstance(n, (ast.If, ast.For, ast.While, ast.With, ast.FunctionDef)):
+                    n.body = [ast.Pass()]
+        if not changed[0]:
+            return
 
 
 _cache: Dict[tuple, FuncInfo] = {}
